@@ -74,12 +74,90 @@ class Ctx:
         self.raw = d
 
 
+class Guarded:
+    """Proxy of a class/module of the implementation: every call through it is followed by a comparison of the
+    process-wide tables the reference functions consult with their pristine values ("reads do not write")."""
+
+    def __init__(self, target, label, guard):
+        object.__setattr__(self, "_t", target)
+        object.__setattr__(self, "_label", label)
+        object.__setattr__(self, "_guard", guard)
+        object.__setattr__(self, "_cache", {})
+
+    def __getattr__(self, name):
+        cache = self._cache
+        if name in cache:
+            return cache[name]
+        val = getattr(self._t, name)
+        if not callable(val):
+            return val              # plain data (e.g. SpecialFolders): always the current value
+        guard, label = self._guard, "%s.%s" % (self._label, name)
+
+        def call(*a, **kw):
+            try:
+                return val(*a, **kw)
+            finally:
+                guard.after(label)
+        cache[name] = call
+        return call
+
+
+class GlobalState:
+    """The module/class level tables consulted by the parse / print / classify / expand functions."""
+
+    def __init__(self, FL, G, on_change):
+        self.tables = [("FlowIR.SpecialFolders", FL.FlowIR.SpecialFolders),
+                       ("FlowIR.data_reference_methods", FL.FlowIR.data_reference_methods),
+                       ("DataReference.methods", G.DataReference.methods),
+                       ("DataReference.pathMethods", G.DataReference.pathMethods),
+                       ("DataReference.filesystemMethods", G.DataReference.filesystemMethods)]
+        self.owners = [(FL.FlowIR, "SpecialFolders"), (FL.FlowIR, "data_reference_methods"), (G.DataReference, "methods"),
+                       (G.DataReference, "pathMethods"), (G.DataReference, "filesystemMethods")]
+        self.pristine = [list(t) for _, t in self.tables]
+        self.strings = [("FlowIR.VariablePattern", FL.FlowIR, "VariablePattern", FL.FlowIR.VariablePattern)]
+        self.on_change = on_change
+        self.defer = False          # True: record a change but leave it in place (two-step histories), restore() later
+        self.dirty = False
+
+    def after(self, label):
+        for k, (name, table) in enumerate(self.tables):
+            owner, attr = self.owners[k]
+            cur = getattr(owner, attr)
+            if cur is not table or cur != self.pristine[k]:
+                if not (self.defer and self.dirty):
+                    self.on_change(name, label, list(self.pristine[k]), list(cur) if isinstance(cur, list) else cur)
+                self.dirty = True
+                if not self.defer:
+                    self.restore()
+                return
+        for name, owner, attr, val in self.strings:
+            if getattr(owner, attr) != val:
+                self.on_change(name, label, val, getattr(owner, attr))
+                setattr(owner, attr, val)
+
+    def restore(self):
+        for k, (name, table) in enumerate(self.tables):
+            owner, attr = self.owners[k]
+            table[:] = self.pristine[k]
+            setattr(owner, attr, table)
+        self.dirty = False
+
+
+MAX_FAILURES = 400      # the verdict is decided long before: a pathological tree must still end within the budget
+
+
 class Runner:
     def __init__(self, chk):
         import experiment.model.frontends.flowir as FL
         import experiment.model.graph as G
         import experiment.model.errors as E
-        self.FL, self.F, self.G, self.E = FL, FL.FlowIR, G, E
+        self.guard = GlobalState(FL, G, self.global_changed)
+        self.E = E
+        self.FL = Guarded(FL, "flowir", self.guard)
+        self.F = Guarded(FL.FlowIR, "FlowIR", self.guard)
+        self.G = Guarded(G, "graph", self.guard)
+        self.nfail = 0
+        self.current = None
         self.chk = chk
         self.classes = {}
         self.reasons = {}
@@ -89,14 +167,27 @@ class Runner:
 
     # -- helpers -------------------------------------------------------------
     def bad(self, case, ctx, clause, what, root=None):
-        ic = root or input_class(case)
+        ic = root or getattr(self, "root", None) or input_class(case)
         key = ic if ic else "%s:%s" % (clause, case["kind"])
         self.fail(key, "%s [reference %r, consumer stage %d, context %d: keys=%s deps=%s]" % (
-            what, R(case["s"]), case["n"], ctx.id, ctx.keys, ctx.deps), {"kind": "case", "case": case, "ctx": ctx.raw})
+            what, R(case["s"]), case["n"], ctx.id, ctx.keys, ctx.deps),
+            {"kind": "case", "case": case, "ctx": ctx.raw, "prior_ctx": getattr(self, "prior_raw", None) if case.get("prior") else None})
+
+    def global_changed(self, table, label, before, after):
+        case, ctx = self.current or (None, None)
+        self.fail("global-state:%s-modified-by:%s" % (table.split(".")[-1], label),
+                  "%s changed the process-wide table %s from %s to %s%s" % (
+                      label, table, before, after,
+                      "" if case is None else " [while handling reference %r in context %d]" % (R(case["s"]), ctx.id)),
+                  None if case is None else {"kind": "case", "case": case, "ctx": ctx.raw})
 
     def fail(self, key, what, replay):
         f = self.failures.setdefault(key, [0, []])
         f[0] += 1
+        # (a write to a process-wide table is one fact per function: it is restored and counted, but only its first
+        # occurrences count towards the early stop, so that the histories that depend on it are still executed)
+        if not key.startswith("global-state:") or f[0] <= 20:
+            self.nfail += 1
         if len(f[1]) < 3 and all(w != what for w, _ in f[1]):
             f[1].append((what, replay))
 
@@ -128,8 +219,37 @@ class Runner:
                           {"kind": "ctx", "ctx": ctx.raw})
 
     # -- one case --------------------------------------------------------------
-    def run_case(self, case, ctx, e2e=True):
+    def run_history(self, case, ctx, prior):
+        """two-step history: the process first inspects ANOTHER package (its folders are handed to the functions), then
+        handles the reference of the case; the second answers must be the pure function of the case's own inputs"""
+        F = self.F
+        self.current = (case, ctx)
+        self.prior_raw = prior.raw
+        self.guard.defer = True
+        s, n = R(case["s"]), case["n"]
+        probes = [s, "some-component/f.txt:ref"] + ["%s/f.txt:copy" % f for f in prior.toplevel[:2]]
+        folders = list(prior.toplevel) + sorted(set(prior.depnames.values()))
+        try:
+            for ref in probes:
+                F.is_datareference_to_component(ref, folders)
+                F.ParseDataReferenceFull(ref, n, prior.deps, prior.toplevel)
+                F.expand_component_references([ref], n, prior.known, prior.deps, prior.toplevel)
+                F.expand_potential_component_reference(ref, n, prior.known, folders + list(F.SpecialFolders))
+        except Exception as e:
+            self.bad(case, ctx, "history", "inspecting the other package raised %r" % e)
+        leaked = self.guard.dirty
+        try:
+            # step two under whatever the first step left behind
+            self.run_case(case, ctx, e2e=False, root="history:answer-depends-on-package-inspected-earlier" if leaked else None)
+        finally:
+            self.guard.defer = False
+            if self.guard.dirty:
+                self.guard.restore()
+
+    def run_case(self, case, ctx, e2e=True, root=None):
         F, G = self.F, self.G
+        self.current = (case, ctx)
+        self.root = root
         s, n = R(case["s"]), case["n"]
         r = case["r"]
         kind, cls = case["kind"], case["cls"]
@@ -138,7 +258,7 @@ class Runner:
         resolved = explicit if explicit is not None else n
         tlf, deps = ctx.toplevel, ctx.deps
         self.classes[cls] = self.classes.get(cls, 0) + 1
-        self.chk.evaluated((s, n, ctx.id))
+        self.chk.evaluated((s, n, ctx.id, case.get("prior", 0)))
 
         # (a) ParseDataReference / ParseProducerReference as documented
         try:
@@ -341,6 +461,7 @@ class Runner:
         try:
             conc = FL.FlowIRConcrete(doc, "default", {})
             errs = conc.validate(top_level_folders=self.manifest_tlf[ctx.id])
+            self.guard.after("FlowIRConcrete.validate")
         except Exception as e:
             return self.bad(case, ctx, "validate", "FlowIRConcrete.validate raised %r" % e)
         self.chk.trace_validated()
@@ -355,14 +476,15 @@ class Runner:
                                         str(unknown[0])[:160]), root=root)
 
 
-def _constants(names, files, methods, contexts, emit):
-    return ("CONSTANTS\n  Names <- %s\n  Files <- %s\n  Methods <- %s\n  Contexts <- %s\n  Emit = %s\n" % (
-        names, files, methods, contexts, "TRUE" if emit else "FALSE"))
+def _constants(names, files, methods, contexts, emit, priors=(0,), leaky=False):
+    return ("CONSTANTS\n  Names <- %s\n  Files <- %s\n  Methods <- %s\n  Contexts <- %s\n  Emit = %s\n  Priors = {%s}\n  Leaky = %s\n" % (
+        names, files, methods, contexts, "TRUE" if emit else "FALSE", ", ".join(str(p) for p in priors),
+        "TRUE" if leaky else "FALSE"))
 
 
 INVARIANTS = ("TypeOK", "RoundTrip", "PartsKept", "SpellingsAgree", "ExpandIdempotent", "ExpandKeepsParts",
-              "ClassifiedAsStated", "DirectStaysPut", "ClassExclusive")
-ACTIONS = ("Write", "Read", "ExpandRef", "ReExpand")
+              "ClassifiedAsStated", "DirectStaysPut", "ClassExclusive", "ReadsDoNotWrite", "PureAnswers")
+ACTIONS = ("InspectOther", "Write", "Read", "ExpandRef", "ReExpand")
 
 
 def run(tier):
@@ -372,13 +494,16 @@ def run(tier):
     thorough = tier == "thorough"
     inv = "".join("INVARIANT %s\n" % i for i in INVARIANTS)
     # families of constants: (names, files, methods, contexts)
-    fams = [("NamesFull", "FilesSmall", "MethodsSmall", "ContextsQuick")]
+    # the last family of each tier is the two-step family: another package (context 4 / 8 ...) was inspected first
+    fams = [("NamesFull", "FilesSmall", "MethodsSmall", "ContextsQuick", (0,)),
+            ("NamesFull", "FilesTwo", "MethodsOne", "ContextsQuick", (4, 8))]
     if thorough:
-        fams = [("NamesFull", "FilesFull", "MethodsAll", "ContextsQuick"),
-                ("NamesFull", "FilesThree", "MethodsOne", "ContextsFull")]
+        fams = [("NamesFull", "FilesFull", "MethodsAll", "ContextsQuick", (0,)),
+                ("NamesFull", "FilesThree", "MethodsOne", "ContextsFull", (0,)),
+                ("NamesFull", "FilesThree", "MethodsOne", "ContextsQuick", (2, 4, 6, 8))]
     # 1a. vacuity guard for the actions (small constants, -coverage)
     c0 = _cfg(os.path.join(gen, "References_cov_%s.cfg" % tier),
-              _constants("NamesFull", "FilesTwo", "MethodsOne", "ContextsOne", False) + "SPECIFICATION Spec\n" + inv + "CHECK_DEADLOCK FALSE\n")
+              _constants("NamesFull", "FilesTwo", "MethodsOne", "ContextsOne", False, priors=(0, 1)) + "SPECIFICATION Spec\n" + inv + "CHECK_DEADLOCK FALSE\n")
     res = tlc.run_tlc("References", c0, timeout=600, coverage=True)
     if not res["ok"]:
         raise MachineryError("References.tla: %s fails on the model:\n%s" % (res["violated"], res["out"][-2500:]))
@@ -396,19 +521,29 @@ def run(tier):
             raise MachineryError("the alphabets of References.tla cannot tell the deviation %s from the specification: %s" % (
                 dev, rd["out"][-800:]))
         chk.cov.setdefault("deviations_distinguished", []).append(dev)
+    # 1a''. the deviation "a call leaves the folders it was given in the process-wide table": with it the answer for a later
+    #       reference depends on the package inspected before (PureAnswers expected to FAIL)
+    cd = _cfg(os.path.join(gen, "References_dev_Leaky_%s.cfg" % tier),
+              _constants("NamesFull", "FilesTwo", "MethodsOne", "ContextsQuick", False, priors=(4,), leaky=True) +
+              "SPECIFICATION Spec\nINVARIANT PureAnswers\nCHECK_DEADLOCK FALSE\n")
+    rd = tlc.run_tlc("References", cd, timeout=600, workers=1, expect_violation=True)
+    if rd["violated"] != "PureAnswers":
+        raise MachineryError("the two-step family of References.tla cannot tell a leaking call from a pure one: %s" % rd["out"][-800:])
+    chk.cov["deviations_distinguished"].append("Leaky/PureAnswers")
     runner = None
     ncases = 0
-    for k, (names, files, methods, contexts) in enumerate(fams):
+    stopped = False
+    for k, (names, files, methods, contexts, priors) in enumerate(fams):
         # 1b. the design satisfies the properties on the whole family
         c1 = _cfg(os.path.join(gen, "References_mc_%s_%d.cfg" % (tier, k)),
-                  _constants(names, files, methods, contexts, False) + "SPECIFICATION Spec\n" + inv + "CHECK_DEADLOCK FALSE\n")
+                  _constants(names, files, methods, contexts, False, priors=priors) + "SPECIFICATION Spec\n" + inv + "CHECK_DEADLOCK FALSE\n")
         res = tlc.run_tlc("References", c1, timeout=1500)
         if not res["ok"]:
             raise MachineryError("References.tla: %s fails on the model:\n%s" % (res["violated"], res["out"][-2500:]))
         chk.add_tlc(res)
         # 2. cases
         c2 = _cfg(os.path.join(gen, "References_emit_%s_%d.cfg" % (tier, k)),
-                  _constants(names, files, methods, contexts, True) + "INIT Init\nNEXT Stutter\nINVARIANT EmitCase\nCHECK_DEADLOCK FALSE\n")
+                  _constants(names, files, methods, contexts, True, priors=priors) + "INIT Init\nNEXT Stutter\nINVARIANT EmitCase\nCHECK_DEADLOCK FALSE\n")
         res = tlc.run_tlc("References", c2, workers=1, timeout=1500)
         if not res["ok"]:
             raise MachineryError("References.tla: emission failed:\n%s" % res["out"][-2500:])
@@ -416,7 +551,7 @@ def run(tier):
         res["out"] = ""
         ctxs = {d["id"]: Ctx(d) for d in emitted if d.get("t") == "ctx"}
         cases = [d for d in emitted if d.get("t") == "case"]
-        if len(cases) < 10000 or not ctxs:
+        if len(cases) < (10000 if priors == (0,) else 1000) or not ctxs:
             raise MachineryError("TLC emitted only %d cases / %d contexts" % (len(cases), len(ctxs)))
         # 3. spec -> code
         if runner is None:
@@ -426,13 +561,26 @@ def run(tier):
             runner.check_context(ctxs[cid])
         runner.e2e_methods = ("ref", "copy") if methods != "MethodsOne" else ("ref", "ref")
         for case in cases:
-            runner.run_case(case, ctxs[case["c"]])
+            if runner.nfail >= MAX_FAILURES:
+                stopped = True          # the verdict is decided; do not spend the budget on a pathological tree
+                break
+            if case.get("prior"):
+                runner.run_history(case, ctxs[case["c"]], ctxs[case["prior"]])
+                chk.trace_validated()
+            else:
+                runner.run_case(case, ctxs[case["c"]])
         ncases += len(cases)
+        if stopped:
+            break
         for case in cases[:: max(1, len(cases) // 3)][:3]:
             chk.sample({"reference": R(case["s"]), "consumer_stage": case["n"], "context": case["c"], "class": case["cls"],
                         "expand": R(case["expand"])})
         del emitted, cases
     runner.report()
+    if stopped:
+        chk.assumptions.append("execution stopped after %d failed comparisons: the remaining cases were not run" % runner.nfail)
+        chk.cov["exhaustive"] = False
+        return chk.finish()
     # vacuity guard of the implication-shaped invariants: every class and every reason of the statement occurred
     for cls in ("direct", "component", "unspecified"):
         if not runner.classes.get(cls):
@@ -444,7 +592,10 @@ def run(tier):
     chk.cov["classes"] = dict(runner.classes)
     chk.cov["rule"] = ("one case per (canonical abstract reference over the adversarial alphabets of spec/References.tla, stage of the consumer in "
                        "{0,1,12}, package context); every case runs ~40 calls of the real parse/print/expand/classify functions; "
-                       "traces = end-to-end FlowIRConcrete.validate runs with the folders of the real Manifest")
+                       "traces = end-to-end FlowIRConcrete.validate runs with the folders of the real Manifest + two-step histories "
+                       "(another package inspected first); after every call the process-wide tables (FlowIR.SpecialFolders, "
+                       "data_reference_methods, DataReference.methods/pathMethods/filesystemMethods, VariablePattern) are compared with "
+                       "their pristine values")
     chk.cov["exhaustive"] = True
     chk.assumptions += ["strings are sequences of tokens (words and the separators . / :); character-level effects inside a word are not modelled",
                         "component names equal to a folder of the package, names whose first dot-segment is exactly stage<N>, "
@@ -463,6 +614,9 @@ def replay(path):
     runner.check_context(ctx)
     if rp["kind"] == "case":
         runner.e2e_methods = (rp["case"]["r"]["method"],)
-        runner.run_case(rp["case"], ctx)
+        if rp["case"].get("prior") and rp.get("prior_ctx"):
+            runner.run_history(rp["case"], ctx, Ctx(rp["prior_ctx"]))
+        else:
+            runner.run_case(rp["case"], ctx)
     runner.report()
     return chk.finish()
